@@ -12,6 +12,7 @@ import (
 	"time"
 
 	"github.com/scionproto/scion/router"
+	sbfd "github.com/scionproto/scion/router/bfd"
 	"github.com/scionproto/scion/router/control"
 
 	"verif/mc"
@@ -178,17 +179,43 @@ func (cr *c15Replay) replay(t *testing.T, hist []c15Ev) (canon string, viol *mc.
 			synctest.Wait()
 		}()
 		synctest.Wait()
-		extS, sibS := rt.VerifLink(c15ExtBFD).BFDSession(), rt.VerifLink(c15SibBFD).BFDSession()
-		if extS == nil || sibS == nil || rt.VerifLink(3).BFDSession() != nil || rt.VerifLink(23).BFDSession() != nil {
-			fail("harness:sessions", "unexpected BFD session layout")
-			return
+		// The sessions as far as they can be reached through the links. They are only used for a cross-check and for the
+		// state abstraction: the verdicts below rest on the reference machine (RFC 5880, 6.8.6) fed with the events this
+		// harness injects, because a link that was configured with BFD but lost, replaced or never started its session
+		// must still not carry traffic while that session cannot be up.
+		sessOf := map[string]*sbfd.Session{"ext": rt.VerifLink(c15ExtBFD).BFDSession(), "sib": rt.VerifLink(c15SibBFD).BFDSession()}
+		myDisc := map[string]uint32{}
+		for k, sp := range sessOf {
+			if sp != nil {
+				myDisc[k] = uint32(sp.LocalDiscriminator)
+			}
 		}
-		myDisc := map[string]uint32{"ext": uint32(extS.LocalDiscriminator), "sib": uint32(sibS.LocalDiscriminator)}
+		const refDown, refInit, refUp = 1, 2, 3
+		ref := map[string]int{"ext": refDown, "sib": refDown}
+		refRecv := func(k string, st uint8, mine bool) {
+			if !mine && (st == 2 || st == 3) {
+				return // Your Discriminator zero with state Init/Up: discarded
+			}
+			switch {
+			case st == 0: // AdminDown
+				if ref[k] != refDown {
+					ref[k] = refDown
+				}
+			case ref[k] == refDown && st == 1:
+				ref[k] = refInit
+			case ref[k] == refDown && st == 2:
+				ref[k] = refUp
+			case ref[k] == refInit && (st == 2 || st == 3):
+				ref[k] = refUp
+			case ref[k] == refUp && st == 1:
+				ref[k] = refDown
+			}
+		}
 		ifOf := map[string]uint16{"ext": c15ExtBFD, "sib": c15SibBFD, "ext-nobfd": 3, "sib-nobfd": 23}
 		// history of the up-state per BFD link, to recognise "forwarding resumes"
 		upHist := map[string][]bool{}
 		probe := func(step string, last bool) {
-			up := map[string]bool{"ext": extS.IsUp(), "sib": sibS.IsUp()}
+			up := map[string]bool{"ext": ref["ext"] == refUp, "sib": ref["sib"] == refUp}
 			for k, v := range up {
 				upHist[k] = append(upHist[k], v)
 			}
@@ -301,6 +328,14 @@ func (cr *c15Replay) replay(t *testing.T, hist []c15Ev) (canon string, viol *mc.
 				}
 				local["scmp-interface-down:"+kind]++
 			}
+			// forwarding followed the reference; the session object the link exposes must agree with it too
+			for k, v := range up {
+				if sp := sessOf[k]; sp != nil && sp.IsUp() != v {
+					fail("session-state-differs-from-rfc5880-reference:"+k, map[string]any{"after": step, "session_is_up": sp.IsUp(),
+						"reference_state": []string{"", "Down", "Init", "Up"}[ref[k]]})
+					return
+				}
+			}
 		}
 		probe("start", len(hist) == 0)
 		for i, e := range hist {
@@ -311,23 +346,30 @@ func (cr *c15Replay) replay(t *testing.T, hist []c15Ev) (canon string, viol *mc.
 			switch e.Kind {
 			case "timeout":
 				time.Sleep(700 * time.Millisecond) // > detection time (3 x 200 ms), no BFD packet in between
+				for k := range ref {
+					if ref[k] != refDown {
+						ref[k] = refDown
+					}
+				}
 			case "bfd":
 				your := uint32(0)
 				if e.Mine {
 					your = myDisc[e.Link]
 					if your == 0 {
-						your = 0x01020304 // link without session
+						your = 0x01020304 // no session reachable through the link
 					}
 				}
 				bfd := rtr.BFDControl(e.State, 3, 0x5eed0000+uint32(e.State), your, 200000, 200000)
 				raw, in := c15BFDPacket(e.Link, ifOf[e.Link], bfd, uint32(time.Now().Unix()))
 				res := rt.Process(raw, in)
-				hasSession := e.Link == "ext" || e.Link == "sib"
-				if hasSession && res.Fast.Disp != router.VerifDone {
-					fail("harness:bfd-packet-not-consumed", fmt.Sprintf("%v: %s", e, dispName(res.Fast.Disp)))
-					return
+				configured := e.Link == "ext" || e.Link == "sib"
+				if configured {
+					refRecv(e.Link, e.State, e.Mine)
+					if res.Fast.Disp != router.VerifDone {
+						local["bfd-packet-on-bfd-link-not-consumed"]++ // judged through its consequences on forwarding
+					}
 				}
-				if !hasSession && res.Fast.Disp != router.VerifDiscard {
+				if !configured && res.Fast.Disp != router.VerifDiscard {
 					fail("bfd-packet-on-link-without-session-not-discarded", fmt.Sprintf("%v: %s", e, dispName(res.Fast.Disp)))
 					return
 				}
@@ -337,9 +379,17 @@ func (cr *c15Replay) replay(t *testing.T, hist []c15Ev) (canon string, viol *mc.
 			synctest.Wait()
 			probe(step, i == len(hist)-1)
 		}
-		es, ed, _ := extS.VerifSnapshot()
-		ss, sd, _ := sibS.VerifSnapshot()
-		canon = fmt.Sprintf("ext{state=%d up=%v remoteDisc=%v} sib{state=%d up=%v remoteDisc=%v}", es, extS.IsUp(), ed != 0, ss, sibS.IsUp(), sd != 0)
+		canon = ""
+		for _, k := range []string{"ext", "sib"} {
+			canon += fmt.Sprintf("%s{ref=%d", k, ref[k])
+			if sp := sessOf[k]; sp != nil {
+				st, rd, _ := sp.VerifSnapshot()
+				canon += fmt.Sprintf(" state=%d up=%v remoteDisc=%v", st, sp.IsUp(), rd != 0)
+			} else {
+				canon += " no-session-reachable-through-link"
+			}
+			canon += "} "
+		}
 	})
 	for k, v := range local {
 		cr.count(k, v)
@@ -452,7 +502,7 @@ func TestC15(t *testing.T) {
 		return b
 	}())})
 	r.Assumptions = []string{
-		"'session not up' is the real session's own IsUp() read just before the packets are processed (whether the session follows RFC 5880 is C16's business); the check demands that forwarding follows it in both directions",
+		"'session not up' is decided by a reference RFC 5880 (6.8.6) machine fed with the BFD packets and time-outs the harness injects on the link configured with BFD; forwarding must follow it in both directions whatever session object the link holds (none, another one, a never started one); the real session reachable through the link must agree with the reference (a disagreement is reported under session-state-differs-from-rfc5880-reference and overlaps C16)",
 		"packets are judged by the fast-path disposition/egress (forwarded over the link = disposition forward with that egress) and by the slow path's SCMP bytes; the socket write itself is not part of the observation",
 		"event waits are 10 ms after a packet and 700 ms for a time-out, so no history leaves a detection timer close to expiry (keeps the state abstraction sound; checked by the merge check)",
 		"InternalConnectivityDown names the ingress interface of the packet (0 for packets from hosts or siblings) and the egress interface",
